@@ -440,6 +440,63 @@ pub fn fe_reader_chunked<B: MkBuilder>(s: &[u8], which: usize) -> FeTrace {
     FeTrace { name, events, pos: None, finalize_n: None }
 }
 
+/// The bytes of `s` through an iterator whose `size_hint` is `(0, Some(usize::MAX))` - legal, and
+/// a front-end that sizes anything from the hint must cope with it.
+pub fn hinted(s: &[u8]) -> impl Iterator<Item = u8> + '_ {
+    (0..usize::MAX).map_while(move |i| s.get(i).copied())
+}
+pub fn fe_decode_hinted(s: &[u8]) -> FeTrace {
+    let mut events = vec![];
+    match guarded(|| decode(hinted(s))) {
+        Ok(v) => {
+            for r in v {
+                events.push(match r {
+                    Ok(m) => Ev::Msg(m),
+                    Err(e) => Ev::Dec(e),
+                })
+            }
+        }
+        Err(p) => events.push(Ev::Panic(p)),
+    }
+    FeTrace { name: "decode(iterator with size_hint (0, usize::MAX))", events, pos: None, finalize_n: None }
+}
+pub fn fe_streaming_hinted<B: MkBuilder>(s: &[u8]) -> Vec<FeTrace> {
+    let mut out = vec![];
+    {
+        let mut events = vec![];
+        if let Err(p) = guarded(|| {
+            let mut it = decode_streaming::<B>(hinted(s));
+            let mut calls = 0;
+            loop {
+                calls += 1;
+                if calls > s.len() + 8 {
+                    events.push(Ev::Hang);
+                    break;
+                }
+                match it.next() {
+                    None => break,
+                    Some(Ok(m)) => events.push(Ev::Msg(m.to_vec())),
+                    Some(Err(e)) => events.push(Ev::Dec(e)),
+                }
+            }
+        }) {
+            events.push(Ev::Panic(p));
+        }
+        out.push(FeTrace { name: "decode_streaming(iterator with size_hint (0, usize::MAX))", events, pos: None, finalize_n: None });
+    }
+    {
+        let mut events = vec![];
+        if let Err(p) = guarded(|| {
+            let mut r = B::builder().from_iterator(hinted(s));
+            drain_reader!(r, s.len(), events);
+        }) {
+            events.push(Ev::Panic(p));
+        }
+        out.push(FeTrace { name: "SmlReader(iterator with size_hint (0, usize::MAX))", events, pos: None, finalize_n: None });
+    }
+    out
+}
+
 /// Which front-ends to run.
 #[derive(Clone, Copy, PartialEq, Eq, Debug)]
 pub enum FeSet {
@@ -462,7 +519,9 @@ impl<'a> BufVisitor for RunFes<'a> {
         if self.set == FeSet::All {
             if self.is_vec {
                 v.push(fe_decode(s));
+                v.push(fe_decode_hinted(s));
             }
+            v.extend(fe_streaming_hinted::<B>(s));
             v.push(fe_reader_iter_val::<B>(s));
             v.push(fe_reader_iter_ref::<B>(s));
             v.push(fe_reader_cursor::<B>(s));
